@@ -20,6 +20,10 @@ mod memory;
 mod options;
 mod sealed;
 
+#[cfg(rarena_verif)]
+#[allow(missing_docs)]
+pub mod verif;
+
 #[cfg(test)]
 #[macro_use]
 mod tests;
@@ -881,6 +885,8 @@ impl Meta {
   unsafe fn clear<A: Allocator>(&self, arena: &A) {
     unsafe {
       let ptr = arena.raw_mut_ptr().add(self.ptr_offset as usize);
+      #[cfg(rarena_verif)]
+      crate::verif::plain_write(ptr as usize, self.ptr_size as usize);
       core::ptr::write_bytes(ptr, 0, self.ptr_size as usize);
     }
   }
